@@ -74,6 +74,10 @@ func flatPathWithPreds(g *xgen.G, env *xgen.Env) xref.Path {
 
 func c12Flat(c *Case) {
 	g := c.G()
+	if c.Index%10 == 9 {
+		c12FlatPrefixed(c)
+		return
+	}
 	d := c12Doc(c.GShared("doc", int64(c.Index/10)))
 	ctx := d.Nodes[g.Intn(len(d.Nodes))]
 	if g.Chance(0.3) {
@@ -279,4 +283,48 @@ func c12Protocol(c *Case) {
 	c.SampleEvery(4001, func() interface{} {
 		return map[string]interface{}{"family": "protocol", "expr": src, "ctx": ctx.Label(), "sequence": xdoc.Labels(sel.seq), "extra_movenext": extra}
 	})
+}
+
+// c12FlatPrefixed: the single descendant step and flat paths with PREFIXED name tests (no namespace
+// map: matched by prefix) on documents that carry prefixes.
+func c12FlatPrefixed(c *Case) {
+	g := c.G()
+	d := c.GShared("nsdoc", int64(c.Index/40)).NSTree(false)
+	elems, _ := docQNames(d)
+	if len(elems) == 0 {
+		return
+	}
+	q := elems[g.Intn(len(elems))]
+	t := xref.Test{Kind: "name", Prefix: q.prefix, Local: q.local}
+	ctx := d.Nodes[g.Intn(len(d.Nodes))]
+	var p xref.Path
+	switch g.Intn(3) {
+	case 0:
+		p = xref.Path{Abs: true, Steps: []*xref.Step{xgen.DSlash(), {Axis: "child", Abbrev: "child", Test: t}}}
+	case 1:
+		p = xref.Path{Steps: []*xref.Step{xgen.SelfDot(), xgen.DSlash(), {Axis: "child", Abbrev: "child", Test: t}}}
+		ctx = d.Root
+	default:
+		p = xref.Path{Steps: []*xref.Step{{Axis: "child", Abbrev: "child", Test: xref.Test{Kind: "*"}}, {Axis: "child", Abbrev: "child", Test: t}}}
+	}
+	src := xref.Render(p)
+	want, ok, _ := refNodeSet(p, xref.NewCtx(ctx))
+	if !ok {
+		return
+	}
+	ce := c.compile(src, func() map[string]interface{} { return docDetail(d, ctx) })
+	if ce == nil {
+		return
+	}
+	got, good := c.checkSelectSet(ce, src, ctx, want)
+	if good && !SameNodes(got.Nodes, want) {
+		dd := docDetail(d, ctx)
+		dd["expr"], dd["expected_sequence"], dd["observed_sequence"] = src, xdoc.Labels(want), xdoc.Labels(got.Nodes)
+		c.Violation("NOT-DOCUMENT-ORDER", dd)
+		return
+	}
+	c.Count("flat:prefixed")
+	if len(want) >= 2 {
+		c.Nontrivial(fmt.Sprintf("%s|ns%d|%d", src, c.Index/40, ctx.Ord))
+	}
 }
